@@ -34,7 +34,13 @@ CasesOut ==
 LeavesOut == ndJsonSerialize(IOEnv.VERIF_LEAVES, LeafExport)
 
 ASSUME HasEnv("VERIF_LEAVES") => LeavesOut
+\* VERIF_ENUM_METH=d: the types with a method-bearing component (MethTypes(d))
+EnumMethOut ==
+  LET ts == SetToSeq(MethTypes(IF IOEnv.VERIF_ENUM_METH = "1" THEN 1 ELSE 2)) IN
+  ndJsonSerialize(IOEnv.VERIF_OUT, [i \in DOMAIN ts |-> [t |-> ts[i], depth |-> Depth(ts[i]), size |-> Size(ts[i])]])
+
 ASSUME HasEnv("VERIF_ENUM") => EnumOut
+ASSUME HasEnv("VERIF_ENUM_METH") => EnumMethOut
 ASSUME HasEnv("VERIF_TYPES") => CasesOut
 
 Init == done = TRUE
